@@ -1,4 +1,5 @@
 """C12 - every evaluated rule yields exactly one well-formed, accounted outcome."""
+import collections
 import io
 import itertools
 import json
@@ -64,6 +65,12 @@ def gen_case(rng, tier, idx):
                       # rendering this very response, syntax error
                       "content": rng.choice([None, None, None, "plain text", "value {{ n }} key {{ error_key }}", "{{ undefined_zz.attr }}",
                                              "{{ n + 'x' }}{{ l + 1 }}{{ d + 1 }}{{ s + 1 }}", "{% if %}", "{{ l[7].x.y }}", "{{ 1 / 0 }}"])})
+    if len(rules) >= 3 and rng.random() < 0.2:
+        a = rng.randrange(len(rules) - 1)
+        for j in rng.sample(range(a + 1, len(rules)), rng.randint(1, min(2, len(rules) - a - 1))):
+            rules[j]["same_name_as"] = a
+            rules[j]["module"] = rules[a]["module"]
+            rules[j]["key"] = "KEYT%d" % j
     return {"rules": rules, "limit": rng.choice([None, None, 300, 1000])}
 
 
@@ -175,6 +182,9 @@ def run_case(spec, ctx):
                     return r
                 return mk(key)
             body.__name__ = body.__qualname__ = "r%d_%d" % (uid, i)
+            if rs.get("same_name_as") is not None:
+                # rules produced by one factory function share module and qualified name
+                body.__name__ = body.__qualname__ = "r%d_%d" % (uid, rs["same_name_as"])
             body.__module__ = mods[rs["module"]]
             if oc == "missing_req":
                 deps = [present, absent]
@@ -257,11 +267,46 @@ def run_case(spec, ctx):
             if not show_meta and meta is not None:
                 ctx.violation("metadata-shown-though-filtered-out", {"options": opts, "variant": vname}, spec=case)
             expected_components = set()
+
+            def typed_of(rs_):
+                oc_ = rs_["outcome"]
+                if oc_ in MK or oc_ in ("size_under", "size_at", "size_over"):
+                    return (TYPE[oc_] if oc_ in MK else TYPE[rs_["mk"]]), rs_["key"]
+                if oc_ == "none":
+                    return "none", "NONE_KEY"
+                return None, None
+            groups = collections.defaultdict(list)
+            for i, r in enumerate(rules):
+                groups[dr.get_name(r)].append(i)
+            for name_, members in groups.items():
+                if len(members) < 2:
+                    continue
+                # rules sharing module and qualified name (one factory function): entries cannot be attributed by name alone;
+                # typed entries are attributed by (name, key), everything else is accounted per name
+                ctx.count("groups_of_rules_sharing_a_name")
+                vis = [i for i in members if typed_of(spec["rules"][i])[0] is not None and typed_of(spec["rules"][i])[0] not in hidden]
+                if len(entries.get(name_, [])) != len(vis):
+                    ctx.violation("response-not-reported-exactly-once", {"rules_sharing_the_name": members, "entries": len(entries.get(name_, [])), "expected": len(vis),
+                                                                         "variant": vname, "options": opts}, spec=case)
+                nmiss = sum(1 for i in members if spec["rules"][i]["outcome"] in ("missing_req", "missing_group", "dep_failed"))
+                if show_skips and len(skipby.get(name_, [])) != nmiss:
+                    ctx.violation("skip-entry-not-reported-exactly-once", {"rules_sharing_the_name": members, "entries": len(skipby.get(name_, [])), "expected": nmiss,
+                                                                           "variant": vname, "options": opts}, spec=case)
             for i, (r, rs) in enumerate(zip(rules, spec["rules"])):
                 oc, key = rs["outcome"], rs["key"]
                 name = dr.get_name(r)
                 found = entries.get(name, [])
                 sk = skipby.get(name, [])
+                if len(groups[name]) > 1:
+                    t_, k_ = typed_of(rs)
+                    found = [x for x in found if t_ is not None and x[1].get("key") == k_ and x[1].get("type") == t_]
+                    if t_ is not None and sum(1 for j in groups[name] if typed_of(spec["rules"][j]) == (t_, k_)) > 1:
+                        found = found[:1]
+                    if oc in ("missing_req", "missing_group", "dep_failed"):
+                        want = {"missing_req": [dr.get_name(absent)], "missing_group": [dr.get_name(absent), dr.get_name(failed)], "dep_failed": [dr.get_name(failed)]}[oc]
+                        sk = [x for x in sk if all(n in x.get("details", "") for n in want) and dr.get_name(present) not in x.get("details", "")][:1]
+                    else:
+                        sk = []
                 exc = br.exceptions.get(r, [])
                 ctx.count("rule_outcomes_checked")
                 ctx.seen("outcome_kinds", oc)
